@@ -178,7 +178,8 @@ func checkHeaderWiring(c *report.Ctx) {
 	})
 	c.Check("R-WIRE", an.FuncName(rre)+"/deadline-conversion", "the deadline header is the invocation's monotonic deadline converted to epoch and expressed in milliseconds", chain && div, fpos(rre), 4, "ParseInt/MonoToEpoch/FormatInt present: %v; divided by 1e6: %v", chain, div)
 	// same conversion for the extensions' event
-	if ae := fn(c, "L/rapi/rendering", "newAgentInvokeEvent"); ae != nil {
+	// (the helper that builds the event is looked through: internal/load/norm.go transparent list)
+	if ae := fn(c, "L/rapi/rendering", "(*InvokeRenderer).RenderAgentEvent"); ae != nil {
 		T := "L/rapi/model.AgentInvokeEvent"
 		gotF := map[string][]string{}
 		for _, st := range an.Stores(ae, T, "") {
